@@ -451,8 +451,9 @@ class Gen:
         self.lights.append(self.strip)
         self.mats = []
         for i, nm in enumerate(['Candle', 'Tube'][:rng.choice([1, 1, 2])]):
-            if rng.random() < 0.15:
-                h, w = rng.choice([(6, 5), (11, 5)])
+            if rng.random() < 0.25:
+                # the Candle, a Tube, and lights of more than 64 cells (one message still carries the whole matrix)
+                h, w = rng.choice([(6, 5), (11, 5), (16, 8), (5, 13), (9, 8), (8, 9)])
             else:
                 h, w = rng.randint(1, 8), rng.randint(1, 8)
             m = {'tag': 2 + i, 'name': nm, 'kind': 'matrix', 'h': h, 'w': w}
